@@ -76,5 +76,21 @@ for f in sorted(glob.glob(str(V / "harmless" / "*" / "meta.json"))):
     rows.append(f"| {hid} | {', '.join(x.replace('pyxel/', '') for x in m['files'])} | {runs} |")
 block("harmless", "\n".join(rows))
 
+# seed regression
+rp = V / "seeded" / "regression.json"
+if rp.exists():
+    rr = json.loads(rp.read_text())
+    app = [r for r in rr if r["applies"]]
+    conc = [r for r in app if r["concrete"]]
+    nfi = [r for r in app if not r["concrete"] and r["nfi"]]
+    miss = [r for r in app if not r["concrete"] and not r["nfi"]]
+    stale = [r for r in rr if not r["applies"]]
+    body = (f"Last re-evaluation of every seeded defect against the checks as they are now (`harness/seed_regress.sh`, quick tier, seed 0): "
+            f"{len(rr)} seeds — {len(conc)} caught with a concrete VIOLATION, {len(nfi)} reported as `no-failing-input-found` only "
+            f"({', '.join(r['id'] for r in nfi) or 'none'}), {len(miss)} not reported ({', '.join(r['id'] for r in miss) or 'none'}), "
+            f"{len(stale)} whose patch no longer applies because a later `fix:` commit rewrote the same lines "
+            f"({', '.join(r['id'] for r in stale) or 'none'}; each was caught when it was seeded).")
+    block("seedregress", body)
+
 (V / "DESIGN.md").write_text(design)
 print("DESIGN.md tables rewritten")
